@@ -113,6 +113,10 @@ func jsBase(t *amType, closed bool) map[string]any {
 		case bool:
 			return map[string]any{"type": "boolean", "const": c}
 		default:
+			if strings.HasPrefix(t.Width, "float") {
+				// an integral constant of a number-typed member: `{"type": "number", "const": 39}`
+				return map[string]any{"type": "number", "const": c}
+			}
 			return map[string]any{"type": "integer", "const": c}
 		}
 	case "array":
